@@ -194,7 +194,7 @@ def gen_spec(rnd):
                              ('after_start', rnd.choice(['false', 'raise']))])
             ws[-1].setdefault('hooks', {})[hk[0]] = [hk[1], False]
     trig = rnd.choice(['boot', 'boot', 'start-all', 'restart-glob', 'start-glob', 'start-regex', 'restart-regex',
-                       'restart-all-names', 'restart-during-check'])
+                       'restart-all-names', 'restart-during-check', 'reload-all-terminate', 'reload-all-terminate'])
     h = {'watchers': ws, 'arb': {'warmup_delay': rnd.choice([0, 0, 1, 2])}, 'trigger': trig,
          'death_at': rnd.randint(1, 40) if rnd.random() < .33 else None}
     if rnd.random() < .2:
@@ -346,6 +346,9 @@ def _run(w, h, res):
         rep = yield w.call('restart', name='w[0-9]', match='regex', waiting=True)
     elif trig == 'restart-all-names':
         rep = yield w.call('restart', name='*', match='glob', waiting=True)
+    elif trig == 'reload-all-terminate':
+        # `reload` of the whole arbiter without the graceful mode is documented as a simple restart of every watcher
+        rep = yield w.call('reload', graceful=False, waiting=True)
     yield w.settle(200)
     if w.stalled is not None:
         res.obs['stalled(C05 owns)'] += 1
